@@ -1,4 +1,5 @@
 import GqlVerif.Driver.Decode
+import GqlVerif.Driver.Loop
 open GqlVerif
 
 def errSexp : Err → Sexp
@@ -60,14 +61,4 @@ def handle (req : Sexp) : Sexp :=
     | _, _, _, _ => bad "gen"
   | _ => bad "unknown request"
 
-partial def loop (hin : IO.FS.Stream) (hout : IO.FS.Stream) : IO Unit := do
-  let line ← hin.getLine
-  if line.isEmpty then return ()
-  match Sexp.parse line with
-  | some req => hout.putStrLn (toString (handle req))
-  | none => hout.putStrLn "(bad-request \"parse\")"
-  hout.flush
-  loop hin hout
-
-def main : IO Unit := do
-  loop (← IO.getStdin) (← IO.getStdout)
+def main : IO Unit := runLoop handle
